@@ -247,4 +247,127 @@ theorem kcentersFit_spec {nClusters nInit : Int} {bipartite : Bool} {nRow nCol :
           unfold maskCenters at hmask
           simp at hmask
 
+/-! ### the assignment loop of one restart and the whole fit -/
+
+/-- the `while` loop of a restart runs its body exactly once when `max_iter ≥ 1` (the centres are never replaced,
+    so `prev_centers == centers` after the first round) and not at all otherwise -/
+theorem kcentersAssign_eq (classify : List Nat → List Nat) (maxIter : Int) {centers : List Nat}
+    (hne : centers ≠ []) (fuel : Nat) :
+    kcentersAssign classify maxIter centers (fuel + 2) none none 0 =
+      some (if 1 ≤ maxIter then (some (classify centers), 1) else (none, 0)) := by
+  have h0 : centersEqual none centers = false := by
+    cases centers with
+    | nil => exact absurd rfl hne
+    | cons x xs => rfl
+  have h1 : centersEqual (some centers) centers = true := by simp [centersEqual]
+  by_cases hm : 1 ≤ maxIter
+  · have hd : decide (((0 : Nat) : Int) < maxIter) = true := by simp; omega
+    rw [kcentersAssign, h0, hd]
+    simp only [Bool.not_false, Bool.and_self, if_true]
+    rw [kcentersAssign, h1]
+    simp [hm]
+  · have hd : decide (((0 : Nat) : Int) < maxIter) = false := by simp; omega
+    rw [kcentersAssign, h0, hd]
+    simp [hm]
+
+theorem kcentersChecks_ok {nClusters nInit : Int} {bipartite : Bool} {nRow nCol : Nat} {pos : CenterPos}
+    {mask : List Bool} (h : kcentersChecks nClusters nInit bipartite nRow nCol pos = .ok mask) :
+    2 ≤ nClusters ∧ 1 ≤ nInit ∧ maskCenters bipartite nRow nCol pos = .ok mask ∧
+    nClusters.toNat ≤ (mask.filter id).length := by
+  unfold kcentersChecks at h
+  split at h
+  · cases h
+  split at h
+  · cases h
+  cases hm : maskCenters bipartite nRow nCol pos with
+  | error e => rw [hm] at h; cases h
+  | ok m =>
+    rw [hm] at h
+    simp only at h
+    split at h
+    · cases h
+    · cases h
+      refine ⟨by omega, by omega, rfl, by omega⟩
+
+theorem foldl_add_const {α : Type} (l : List α) (f : α → Nat) (c : Nat) (h : ∀ x ∈ l, f x = c) (acc : Nat) :
+    (l.map f).foldl (· + ·) acc = acc + l.length * c := by
+  induction l generalizing acc with
+  | nil => simp
+  | cons x xs ih =>
+    simp only [List.map_cons, List.foldl_cons, List.length_cons]
+    rw [ih (fun y hy => h y (by simp [hy])), h x (by simp)]
+    rw [Nat.add_mul]; omega
+
+/-- ★ the whole of `KCenters.fit` (checks, restarts, assignment loop, selection, bookkeeping): if it returns, then
+    for any random choices and any assignment giving every node a label below `n_clusters`, the result satisfies
+    the k-centers clause of C05, and exactly one assignment per restart was computed. -/
+theorem kcentersFitFull_spec {nClusters nInit maxIter : Int} {bipartite : Bool} {nRow nCol : Nat} {pos : CenterPos}
+    {chooseOf : Nat → Nat → List Nat → Nat} {classify : Nat → List Nat → List Nat} {idxMax : Nat}
+    {k : KFitted} {calls : Nat}
+    (h : kcentersFitFull nClusters nInit maxIter bipartite nRow nCol pos chooseOf classify idxMax = .ok (k, calls))
+    (hch : ∀ i, ChoiceOK (chooseOf i))
+    (hcl : ∀ i centers, (classify i centers).length = (if bipartite then nRow + nCol else nRow) ∧
+      ∀ l ∈ classify i centers, l < nClusters.toNat) :
+    KCentersOK bipartite nRow nCol pos nClusters.toNat (allLabelsK k) k.centers ∧
+    (bipartite = true → CentersSplitOK nRow pos k.centers k.centersRow k.centersCol) ∧
+    1 ≤ maxIter ∧ calls = nInit.toNat := by
+  unfold kcentersFitFull at h
+  cases hchk : kcentersChecks nClusters nInit bipartite nRow nCol pos with
+  | error e => rw [hchk] at h; cases h
+  | ok mask =>
+    rw [hchk] at h
+    obtain ⟨hnc, hni, hmask, hn⟩ := kcentersChecks_ok hchk
+    simp only at h
+    -- every restart: centres are non-empty, the loop is one assignment (or none when max_iter < 1)
+    have hcent : ∀ i, (initCenters (chooseOf i) mask nClusters.toNat) ≠ [] := by
+      intro i hnil
+      have := (initCenters_spec (hch i) hn).1
+      rw [hnil] at this
+      simp at this; omega
+    have hatt : kcentersAttempts maxIter mask nClusters.toNat nInit.toNat chooseOf classify =
+        (List.range nInit.toNat).map fun i =>
+          (initCenters (chooseOf i) mask nClusters.toNat,
+           some (if 1 ≤ maxIter then (some (classify i (initCenters (chooseOf i) mask nClusters.toNat)), 1)
+                 else (none, 0))) := by
+      unfold kcentersAttempts
+      apply List.map_congr_left
+      intro i _
+      rw [kcentersAssign_eq (classify i) maxIter (hcent i) 1]
+    rw [hatt] at h
+    by_cases hm : 1 ≤ maxIter
+    · simp only [hm, if_true] at h
+      split at h
+      · cases h
+      cases hfit : kcentersFit nClusters nInit bipartite nRow nCol pos
+          (((List.range nInit.toNat).map fun i =>
+            ((initCenters (chooseOf i) mask nClusters.toNat,
+              some (some (classify i (initCenters (chooseOf i) mask nClusters.toNat)), 1)) : Attempt)).map attemptRun)
+          idxMax with
+      | error e => rw [hfit] at h; cases h
+      | ok kk =>
+        rw [hfit] at h
+        simp only [Except.ok.injEq, Prod.mk.injEq] at h
+        obtain ⟨rfl, hcalls⟩ := h
+        have hspec := kcentersFit_spec hfit (by
+          intro mask' hmask' r hr
+          rw [hmask] at hmask'; cases hmask'
+          obtain ⟨a, ha, rfl⟩ := List.mem_map.mp hr
+          obtain ⟨i, _, rfl⟩ := List.mem_map.mp ha
+          exact ⟨⟨chooseOf i, hch i, rfl⟩, (hcl i _).1, (hcl i _).2⟩)
+        refine ⟨hspec.1, hspec.2, hm, ?_⟩
+        rw [← hcalls, foldl_add_const _ attemptCalls 1]
+        · simp
+        · intro a ha
+          obtain ⟨i, _, rfl⟩ := List.mem_map.mp ha
+          rfl
+    · exfalso
+      simp only [hm, if_false] at h
+      have hpos : 0 < nInit.toNat := by omega
+      have hany : (((List.range nInit.toNat).map fun i =>
+          ((initCenters (chooseOf i) mask nClusters.toNat, some (none, 0)) : Attempt)).any attemptFailed) = true := by
+        rw [List.any_eq_true]
+        exact ⟨_, List.mem_map.mpr ⟨0, List.mem_range.mpr hpos, rfl⟩, rfl⟩
+      rw [hany] at h
+      simp at h
+
 end SkNet.Clustering
